@@ -126,6 +126,7 @@ theorem C12_never_blocks (cfg : Cfg) (c : CC α) (m : Meth α) (hc : c.closing =
   | write p => simp [CC.call, ha]
   | isActive => simp [CC.call]
   | close => simp [CC.call]
+  | detach => simp [CC.call]
 
 /-- Close is idempotent: a second Close returns nil and changes nothing. -/
 theorem C12_close_idempotent (cfg : Cfg) (c : CC α) :
@@ -198,7 +199,30 @@ theorem C12_no_panic_recycled (cfg : Cfg) (c : CC α) (m : Meth α) (hc : c.clos
   | write p => simp [CC.call, ha]
   | isActive => simp [CC.call]
   | close => simp [CC.call]
+  | detach => simp [CC.call]
 
 example : (closedLB : LB Nat).length = 0 := rfl
+
+/-- Close modes that go through an OnRequest handler task - the handler calls Close (and returns, or then panics), the peer
+closes while the handler runs (and it returns, or then panics), the handler panics on the active connection: the task runs
+the teardown exactly once and keeps the `processing` lock, so afterwards the connection is torn down with both buffers
+recycled (the input was offered to the handler), no method panics or blocks, and Close / Detach - any number of them -
+return nil and run nothing again. -/
+theorem C12_handler_close (cfg : Cfg) (c : CC α) (hreq : c.req = true) (hcb : c.cb = true) (ht : c.tornDown = false)
+    (m : Mode) (hm : m.viaHandler = true) :
+    (c.closeBy m).tornDown = true ∧ (c.closeBy m).input = closedLB ∧ (c.closeBy m).output = closedLB ∧
+    ((c.closeBy m).closing = 1 ∨ (c.closeBy m).closing = 2) ∧
+    (∀ meth, ((c.closeBy m).call cfg meth).2 ≠ .panic ∧ ((c.closeBy m).call cfg meth).2 ≠ .blocks) ∧
+    (c.closeBy m).call cfg .close = ({ c.closeBy m with closing := 1 }, .ok .unit) ∧
+    (c.closeBy m).call cfg .detach = ({ c.closeBy m with closing := 1 }, .ok .unit) := by
+  have key : (c.closeBy m).tornDown = true ∧ (c.closeBy m).input = closedLB ∧ (c.closeBy m).output = closedLB ∧
+      ((c.closeBy m).closing = 1 ∨ (c.closeBy m).closing = 2) := by
+    cases m <;> simp_all [Mode.viaHandler, CC.closeBy, CC.teardown, CC.closeBuffer]
+  obtain ⟨h1, h2, h3, h4⟩ := key
+  refine ⟨h1, h2, h3, h4, fun meth => ⟨C12_no_panic_recycled cfg _ meth h4 h2, C12_never_blocks cfg _ meth h4⟩, ?_, ?_⟩ <;>
+    simp [CC.call, CC.teardown, h1]
+
+example : ∃ c : CC Nat, c.req = true ∧ c.cb = true ∧ c.tornDown = false ∧ c.input.length ≠ 0 ∧ Mode.hUserPanic.viaHandler = true :=
+  ⟨{ closing := 0, tornDown := false, cb := true, req := true, input := { closedLB with length := 10 }, output := closedLB }, by decide⟩
 
 end Netpoll.Props.C12
